@@ -40,6 +40,7 @@ type ForeignParams struct {
 	Order    string `json:"order,omitempty"`    // "" certificate first | key-first (as some tools write it)
 	Point    string `json:"point,omitempty"`    // EC public key in the certificate: "" uncompressed | compressed (NIST curves only)
 	Odd      string `json:"odd,omitempty"`      // structurally valid but unusual certificate/request (see oddKinds)
+	Ski      string `json:"ski,omitempty"`      // the certificate carries basicConstraints and a subjectKeyIdentifier made by another method: sha256 (RFC 7093, truncated) | custom (8 octets) | short (1 octet)
 }
 
 func (f ForeignParams) JSON() string { b, _ := json.Marshal(f); return string(b) }
@@ -457,7 +458,23 @@ func buildForeignArtifact(w *World, e *EntitySpec, arg string) ([]byte, error) {
 		if p.Odd != "" {
 			der, err = buildOddCert(p.Odd, subj, k, signer, fam, now)
 		} else {
-			der, err = buildCert(subj, issuerDN, k.spkiForm(p.Point), signer, fam, p.Sig, now.AddDate(-1, 0, 0), now.AddDate(60, 0, 0), 4711, nil)
+			var exts []byte
+			if p.Ski != "" {
+				var kid []byte
+				switch p.Ski {
+				case "sha256":
+					h := sha256.Sum256(k.spkiForm(p.Point))
+					kid = h[:20]
+				case "short":
+					kid = []byte{0x42}
+				default:
+					h := sha256.Sum256(subj)
+					kid = h[:8]
+				}
+				exts = derSeq(derSeq(derOIDBytes("2.5.29.19"), derTLV(0x01, []byte{0xff}), derOctets(derSeq(derTLV(0x01, []byte{0xff})))),
+					derSeq(derOIDBytes("2.5.29.14"), derOctets(derOctets(kid))))
+			}
+			der, err = buildCert(subj, issuerDN, k.spkiForm(p.Point), signer, fam, p.Sig, now.AddDate(-1, 0, 0), now.AddDate(60, 0, 0), 4711, exts)
 		}
 		if err != nil {
 			return nil, err
